@@ -171,7 +171,7 @@ def finalize(session, prop, tier, seed, expected, replayers, kf_classes,
         lines.append('KNOWN-FINDING: property=%s %s [%s; obligation %s]' % (
             prop, k['text'], k['id'], k['obligation']))
 
-    if exit_code == EXIT_OK and S.errors and fallback is not None:
+    if exit_code == EXIT_OK and (S.errors or undecided) and fallback is not None:
         # the code left the supported subset (or a contract is out of date):
         # the deductive part is undecided.  The property's native battery is
         # consulted; a reproduced violation is reported with its witness.
@@ -187,7 +187,7 @@ def finalize(session, prop, tier, seed, expected, replayers, kf_classes,
             with open(path, 'w') as f:
                 json.dump({'property': prop,
                            'obligation': 'deductive part undecided: %r' % (
-                               S.errors[:3],),
+                               (S.errors or undecided)[:3],),
                            'replay': fb}, f, indent=1, default=str)
             print('VIOLATION property=%s replay=%s' % (prop, path))
             exit_code = EXIT_VIOLATION
